@@ -1,6 +1,6 @@
 """C19 - date-time formatting / parsing: tables, field mapping, offsets and epoch views (DESIGN.md section 4, C19)."""
 from sa import rules as RU
-from sa.cfg import dominators, ev_dominates
+from sa.cfg import Typestate, dominators, ev_dominates
 from sa.extract import library_units
 from sa.num import Num, Poly, Limit, State, entails
 from sa.rules import argstr, where
@@ -435,14 +435,53 @@ def format_table(R, P):
         if not R.require(f is not None, "%s not found" % name):
             continue
         R.fn(f)
-        got = {}
+        # typestate over (case label taken, pattern last stored in a local): the pattern handed to s_date_to_str in each
+        # case - written in the case itself, or chosen there into a local and formatted after the switch
+        stores = {}
         for b in f.blocks.values():
-            if b.case is None:
-                continue
-            # the call in this case block (or the block it falls into)
-            calls = [e for e in f.calls("s_date_to_str") if e.blk == b.id]
-            if len(calls) == 1:
-                got[vals.get(b.case, b.case)] = (argstr(f, calls[0].node, 1), argstr(f, calls[0].node, 0))
+            for el in b.elems:
+                for x in f.walk(el):
+                    if x["k"] == "bin" and x["op"] == "=":
+                        l_, r_ = f.d(x["a"][0]), RU.uncast(f, x["a"][1])
+                        while r_ is not None and r_["k"] in ("cast", "decay"):
+                            r_ = RU.uncast(f, r_["a"][0])
+                        if l_ is not None and l_["k"] == "var" and r_ is not None and r_["k"] == "var" and r_["n"] in fm:
+                            stores[id(l_)] = (l_["n"], r_["n"])
+
+        def tr_(e, s_):
+            if e.kind == "access" and e.mode == "w" and id(e.node) in stores:
+                return (s_[0], stores[id(e.node)])
+            if e.kind == "decl":
+                for v in e.node["vars"]:
+                    r_ = RU.uncast(f, v["init"]) if v.get("init") is not None else None
+                    while r_ is not None and r_["k"] in ("cast", "decay"):
+                        r_ = RU.uncast(f, r_["a"][0])
+                    if r_ is not None and r_["k"] == "var" and r_["n"] in fm:
+                        return (s_[0], (v["n"], r_["n"]))
+            return s_
+
+        def edge_(cond, pol, s_, fn, b):
+            if isinstance(pol, tuple) and pol[0] == "case":
+                return (pol[1], s_[1])
+            if isinstance(pol, tuple) and pol[0] == "default":
+                return ("default", s_[1])
+            return s_
+        ts_ = Typestate(f, (None, None), tr_, edge_)
+        got = {}
+        for e in f.calls("s_date_to_str"):
+            a1 = RU.uncast(f, RU.arg(f, e.node, 1))
+            while a1 is not None and a1["k"] in ("cast", "decay"):
+                a1 = RU.uncast(f, a1["a"][0])
+            for (case_, pat_) in ts_.before.get(e.pos, set()):
+                if a1 is not None and a1["k"] == "var" and a1["n"] in fm:
+                    pn = a1["n"]
+                elif a1 is not None and a1["k"] == "var" and pat_ is not None and pat_[0] == a1["n"]:
+                    pn = pat_[1]
+                else:
+                    pn = f.show(a1) if a1 is not None else None
+                key = vals.get(case_, case_)
+                val = (pn, argstr(f, e.node, 0))
+                got[key] = val if got.get(key, val) == val else ("several", got[key], val)
         want = {k: (v, "dt->" + view) for k, v in mp.items()}
         R.check(got == want, "FORMAT-TABLE", "%s:dispatch" % name, "%s()" % name, "each format constant uses its own pattern on dt->%s" % view, "%s dispatches %s" % (name, got))
     g = P.fn("aws_date_time_init_from_str_cursor")
